@@ -580,7 +580,7 @@ fn tag(o: &mut Outcome, i: u64, seed: u64, prop: &str, tier: &str) {
 /// Properties decided on the S-client / S-server / S-e2e families (round-robin over `fams`).
 fn family_prop(ctx: &RunCtx, fams: &[&str]) -> i32 {
     let prop = ctx.prop;
-    let n = ctx.n(40_000, 2_000_000);
+    let n = ctx.n(40_000, 1_200_000);
     let thorough = ctx.thorough();
     let seed = ctx.seed;
     let tier = ctx.tier.clone();
